@@ -375,3 +375,21 @@ mod known_f18_composite_one_pass {
         assert!(UE::validate(&b).is_err(), "defect no longer reproduces");
     }
 }
+
+/// Finding 20 (C02, C05, C11): as_bytes() of a FlatVec whose element size is not a multiple of the vector's alignment
+/// is shorter than the value (not rounded to ALIGN): the value's own bytes do not re-map to the same capacity / do not validate.
+#[cfg(test)]
+mod f20_vec_own_bytes {
+    use super::common::*;
+    #[test]
+    fn own_bytes_validate_again() {
+        let mut b = AlignedBytes::new(8 + 16, 8);
+        let v = FlatVec::<[u32; 3], u64>::default_in_place(&mut b).unwrap();
+        assert_eq!(v.capacity(), 1);
+        v.push([1, 2, 3]).unwrap();
+        let own = v.as_bytes().to_vec();
+        assert_eq!(own.len() % 8, 0, "as_bytes() is {} bytes, not a multiple of ALIGN", own.len());
+        let c = aligned(&own, 8);
+        assert!(FlatVec::<[u32; 3], u64>::validate(&c).is_ok(), "own bytes do not validate");
+    }
+}
